@@ -445,8 +445,86 @@ def run_label_names(chk, spec):
 	if got != want:
 		chk.fail("outputs are named <sanitised column>_<function>", f"names/{spec['op']}/output-names/non-string-labels", f"{spec!r}: labels {[lab[x] for x in spec['labels']]!r}: output names {got!r}, rule gives {want!r}")
 
+def _str_labels():
+	import enum
 
-RUNNERS = {"chain": run_chain, "agg_names": run_agg_names, "label_names": run_label_names}
+	class Col(str, enum.Enum):
+		PRICE = "price"
+		QTY = "Unit Qty"
+
+	class Tagged(str):
+		def __str__(self):
+			return f"<col {str.__str__(self)}>"
+		__repr__ = object.__repr__
+
+	return {"enum-price": Col.PRICE, "enum-qty": Col.QTY, "tagged-amount": Tagged("amount"), "tagged-total": Tagged("Total $")}, {"enum-price": "price", "enum-qty": "unit_qty", "tagged-amount": "amount", "tagged-total": "total"}
+
+
+def run_str_subclass_labels(chk, spec):
+	"""a label that IS a string - an instance of a str subclass (a str-valued Enum member, a tagged label class) whose __str__ says something else - is
+	sanitised from its characters: outputs are named <those characters sanitised>_<function>, and structural operations hand the label on as it is"""
+	lab, base = _str_labels()
+	keys = list(spec["labels"])
+	t = Table([Vector(["a", "b", "a"], name="k")] + [Vector([1, 2, 3], name=lab[x]) for x in keys])
+	fn = spec["fn"]
+	o = call(lambda: getattr(t, spec["op"])(over="k", **{fn + "_over": list(t.cols()[1:])}))
+	chk.judged("agg-names", ("str-subclass-labels", spec["op"], fn, tuple(keys)))
+	if not o.ok or not isinstance(o.value, Table):
+		chk.skip("label-names-raised")
+		return
+	got = o.value.column_names()[1:]
+	want = [f"{base[x]}_{fn}" for x in keys]
+	if got != want:
+		chk.fail("outputs are named <sanitised column>_<function>", f"names/{spec['op']}/output-names/str-subclass-labels", f"{spec!r}: labels {[str.__str__(lab[x]) for x in keys]!r} (str subclass instances): output names {got!r}, rule gives {want!r}")
+		return
+	for what, r in (("slice", call(lambda: t[0:2])), ("sort", call(lambda: t.sort_by("k"))), ("copy", call(t.copy)), ("t+1", call(lambda: t[tuple(str.__str__(lab[x]) for x in keys)] + 1))):
+		if r.ok and isinstance(r.value, Table):
+			names = r.value.column_names()[-len(keys):]
+			if any(a is not b and not (type(a) is type(b) and a == b) for a, b in zip(names, [lab[x] for x in keys])):
+				chk.fail("structural operations keep each source column's stored name", f"names/{what}/str-subclass-label-changed", f"{spec!r}: {what} gives labels {[type(a).__name__ for a in names]!r}")
+				return
+
+
+def run_equal_label_rename(chk, spec):
+	"""a rename to a label that compares EQUAL to the current one (1.0 -> 1, 1 -> True, 0 -> False, 'a' -> a str subclass 'a') is a rename: the stored label is
+	the new object, structural operations carry it, aggregate / window sanitise it"""
+	pairs = {"1.0->1": (1.0, 1, "c1"), "1->True": (1, True, "true"), "0->False": (0, False, "false"), "True->1": (True, 1, "c1"), "2023.0->2023": (2023.0, 2023, "c2023"), "1->1.0": (1, 1.0, "c1_0")}
+	old, new, base = pairs[spec["pair"]]
+	t = Table([Vector(["a", "b", "a"], name="k"), Vector([1, 2, 3], name=old)])
+	how = spec["how"]
+	if how == "view":
+		o = call(setattr, t.cols()[1], "name", new)
+	elif how == "view-after-dir":
+		call(dir, t)
+		o = call(setattr, t.cols()[1], "name", new)
+	elif how == "rename_column":
+		o = call(t.rename_column, old, new)
+	else:
+		o = call(t.rename_columns, [old], [new])
+	chk.judged("chain", ("equal-label-rename", spec["pair"], how))
+	if not o.ok:
+		chk.skip("equal-label-rename-refused")
+		return
+	same = lambda a, b: type(a) is type(b) and a == b
+	for what, f in (("column_names", lambda: t), ("slice", lambda: t[0:2]), ("mask", lambda: t[[True, False, True]]), ("sort", lambda: t.sort_by("k")), ("copy", lambda: t.copy()), ("t*2", lambda: t[1:2, 1:2] * 2), (">>", lambda: t >> Vector([7, 8, 9], name="z"))):
+		r = call(f)
+		if not r.ok or not isinstance(r.value, Table):
+			continue
+		names = r.value.column_names()
+		hit = [nm for nm in names if nm == new and not isinstance(nm, str)]
+		if not hit or not same(hit[0], new):
+			chk.fail("a renamed column carries its new label through structural operations", f"names/{what}/equal-label-rename-lost/{how}", f"{spec!r}: after renaming {old!r} to {new!r} ({how}), {what} shows labels {[(type(x).__name__, x) for x in names]!r}")
+			return
+	for op in ("aggregate", "window"):
+		a = call(lambda: getattr(t, op)(over="k", sum_over=t.cols()[1]))
+		if a.ok and isinstance(a.value, Table):
+			got = a.value.column_names()[-1]
+			if got != f"{base}_sum":
+				chk.fail("outputs are named <sanitised column>_<function>", f"names/{op}/output-names/equal-label-rename/{how}", f"{spec!r}: after renaming {old!r} to {new!r} the sum is named {got!r}, rule gives {base + '_sum'!r}")
+				return
+
+
+RUNNERS = {"str_subclass_labels": run_str_subclass_labels, "equal_label_rename": run_equal_label_rename, "chain": run_chain, "agg_names": run_agg_names, "label_names": run_label_names}
 RUNNERS["recompute"] = recompute.runner("C18")
 
 
@@ -505,6 +583,13 @@ def gen_agg_names_spec(rng):
 
 
 def run(chk):
+	for op in ("aggregate", "window"):
+		for fn in ("sum", "max", "count"):
+			for labels in (["enum-price"], ["tagged-amount"], ["enum-price", "enum-qty"], ["tagged-total", "enum-price"], ["tagged-amount", "tagged-total", "enum-qty"]):
+				chk.case("str_subclass_labels", {"op": op, "fn": fn, "labels": labels}, "str-subclass-labels")
+	for pair in ("1.0->1", "1->True", "0->False", "True->1", "2023.0->2023", "1->1.0"):
+		for how in ("view", "view-after-dir", "rename_column", "rename_columns"):
+			chk.case("equal_label_rename", {"pair": pair, "how": how}, "equal-label-rename")
 	recompute.add_cases(chk, "C18")
 	rng = chk.rng
 	for _ in range(900 if chk.quick() else 6000):
